@@ -116,6 +116,8 @@ def run(ck, rng, tier):
             S = o["self%d" % me]
             C = o["cond%d" % me]
             bad = None
+            if repr(S) != repr(o["selfcopy%d" % me]):
+                bad = "CalculateDistance(m, m) differs from CalculateDistance(m, copy of m)"
             idx = 0
             for i in range(n1):
                 for j in range(i + 1, n1):
